@@ -8,7 +8,7 @@
 From H264 Require Import Base.Prelude Base.Bits Model.AnnexB Model.Accum Model.Source Model.Sei Model.Avcc Model.Context Model.Pps Model.Driver
      Spec.AnnexBSpec Spec.AccumSpec Spec.Escape Spec.AvccSpec
      Proofs.AnnexB_sem Proofs.AnnexB_compose Proofs.C08_proofs Proofs.C09_proofs Proofs.EscapeProofs Proofs.C12_frame Proofs.C12_compose Proofs.C12_pipeline Proofs.C12_stream Proofs.C09_proofs Proofs.NalLevel
-     Model.BitReader Model.Sps Model.Nal Model.Slice Spec.SyntaxSps Spec.SyntaxPps Spec.SyntaxSlice Proofs.SpsInv Proofs.PpsInv Proofs.SliceInv Proofs.C14_proofs.
+     Model.BitReader Model.Sps Model.Nal Model.Slice Model.Show Model.ShowSps Model.ShowPps Model.ShowSlice Spec.SyntaxSps Spec.SyntaxPps Spec.SyntaxSlice Proofs.SpsInv Proofs.PpsInv Proofs.SliceInv Proofs.C14_proofs.
 Local Open Scope N_scope.
 
 (* For any sequence of NAL units (non-empty, last byte non-zero, free of 00 00 0x with x <= 2 - which is
@@ -159,6 +159,35 @@ Theorem C12_stream_sps_pps : forall x lists k1 p plists k2 n1 n2 t cs ctx0 pre,
   ps_ctx (fst (pipeline_run ctx0 [] pre (map APush cs ++ [AReset]))) = put_pic_param_set c1 p.
 Proof. exact stream_sps_pps. Qed.
 Print Assumptions C12_stream_sps_pps.
+
+(* ... and a slice NAL after them (header byte with nal_unit_type 1 or 5, any slice data d ending in the rbsp stop bit): in
+   any push partition the handler reports the three parses of the three structures - the slice header read against the
+   context the two parameter sets left - and the context holds both (C06 joins the composition).  wf_slice is inhabited by
+   C06_ex, wf_sps / wf_pps by C12_stream_ex. *)
+Theorem C12_stream_sps_pps_slice : forall x lists k1 p plists k2 hdr pp sp h ab em d k3 n1 n2 n3 t cs ctx0 pre,
+  let c1 := put_seq_param_set ctx0 x in
+  let c2 := put_pic_param_set c1 p in
+  let u1 := nal_of_bits 103 (enc_sps x lists ++ trailing_bits k1) in
+  let u2 := nal_of_bits 104 (enc_pps p plists ++ trailing_bits k2) in
+  let u3 := nal_of_bits hdr (enc_slice_header hdr pp sp h ab em ++ d ++ trailing_bits k3) in
+  wf_sps x lists -> ctx_ok ctx0 -> wf_pps c1 p plists -> wf_slice c2 hdr pp sp h ab ->
+  (k1 < 8)%nat -> (k2 < 8)%nat -> (k3 < 8)%nat ->
+  (8 | N.of_nat (length (enc_sps x lists ++ trailing_bits k1))) ->
+  (8 | N.of_nat (length (enc_pps p plists ++ trailing_bits k2))) ->
+  (8 | N.of_nat (length (enc_slice_header hdr pp sp h ab em ++ d ++ trailing_bits k3))) ->
+  hdr <> 0 -> nal_header_new hdr = Some hdr -> (nal_unit_type_id hdr = 1 \/ nal_unit_type_id hdr = 5) ->
+  any_one (List.tl (d ++ trailing_bits k3)) = true ->
+  (t = 0%nat \/ 3 <= t)%nat ->
+  concat cs = annexb_encode [(n1, u1); (n2, u2); (n3, u3)] t ->
+  let r := pipeline_run ctx0 [] pre (map APush cs ++ [AReset]) in
+  ps_ctx (fst r) = c2 /\
+  exists invs,
+    snd r = (pre ++ fst (lines_of ctx0 (map contiguous invs)))%list /\
+    complete_parses ctx0 invs =
+      ([("sps:ok:" ++ ShowSps.show_sps x)%string; ("pps:ok:" ++ ShowPps.show_pps p)%string;
+        ("slice:ok:" ++ ShowSlice.show_slice_header h ++ ";" ++ Show.show_N (pps_seq_parameter_set_id pp) ++ ";" ++ Show.show_N (pic_parameter_set_id pp))%string], c2).
+Proof. exact stream_sps_pps_slice. Qed.
+Print Assumptions C12_stream_sps_pps_slice.
 
 (* why no condition on the bytes is needed: the stop bit of the rbsp trailing bits lies in the last RBSP byte, so a NAL made
    of a non-zero header byte and the escaped RBSP is non-empty, ends in a non-zero byte and contains no 00 00 0x (x <= 2) *)
